@@ -816,10 +816,11 @@ class BroadcastCode(str, core.DataType):
 
     @classmethod
     def from_bytes(cls, data: bytes) -> Self:
-        return cls(data.strip(bytes([0])).decode("utf-8"))
+        return cls(data.rstrip(bytes([0])).decode("utf-8"))
 
     def __bytes__(self) -> bytes:
-        return self.encode("utf-8")
+        # The Broadcast_Code is a 16-octet field, padded with zeros
+        return self.encode("utf-8").ljust(16, bytes([0]))
 
     def __str__(self) -> str:
         return core.DataType.__str__(self)
